@@ -1,4 +1,5 @@
 import ESV.Comp.LabSem
+import ESV.Comp.Lemmas
 /-
 Back-end correctness, part: the flat op table of the machine described by lists (`flatFrom`), and what
 `OpsLabelJumpToRemover` (`removeItems`) puts where.
